@@ -36,11 +36,11 @@ func init() {
 		Technique:   "reference-model trace monitor (multiset model + comparator as order oracle) over systematic small-scope sweep + seeded random sequences",
 		Assumptions: []string{"the multiset model and the generators are trusted", "comparators are strict orders on the key field", "single goroutine; concurrency is C01/C02"}})
 	reg(&propCfg{ID: "C05", Pkg: "./props/c05", Variants: simple(false),
-		Level:       "held on every executed case: complete sweep of all sequences up to length 7 (thorough 9) over enqueue(3 values)/dequeue/clear/observe for both queue implementations plus seeded random sequences with fill/drain/clear/churn phases; every Dequeue result and Size/Peek/Search compared with a slice model, final drain and Dequeue-on-empty",
+		Level:       "held on every executed case: complete sweep of all sequences up to length 7 (thorough 9) over enqueue(3 values)/dequeue/clear/observe for both queue implementations plus seeded random sequences with fill/drain/clear/churn phases and bulk cases holding 300-3000 unique elements (drained to empty, beyond, almost, partly; refilled); every Dequeue result and Size/Peek/Search compared with a slice model, final drain and Dequeue-on-empty",
 		Technique:   "reference-model trace monitor (FIFO slice model) over systematic small-scope sweep + seeded random sequences",
 		Assumptions: []string{"the slice model and the generators are trusted", "the linked queue reports emptiness by returning the zero value (values enqueued in the sweep are non-zero)", "single goroutine; concurrency is C01/C02"}})
 	reg(&propCfg{ID: "C06", Pkg: "./props/c06", Variants: simple(false),
-		Level:       "held on every executed case: complete sweep of all sequences up to length 8 (thorough 10) over push(3 values)/pop/observe for both stack implementations plus seeded random sequences that repeatedly empty and refill; every Pop result and Size/Peek/Search compared with a slice model, drain with Peek before each Pop, Pop-on-empty",
+		Level:       "held on every executed case: complete sweep of all sequences up to length 8 (thorough 10) over push(3 values)/pop/observe for both stack implementations plus seeded random sequences that repeatedly empty and refill and bulk cases holding 300-3000 unique elements (popped to empty, beyond, almost, partly; refilled); every Pop result and Size/Peek/Search compared with a slice model, drain with Peek before each Pop, Pop-on-empty",
 		Technique:   "reference-model trace monitor (LIFO slice model) over systematic small-scope sweep + seeded random sequences",
 		Assumptions: []string{"the slice model and the generators are trusted", "single goroutine; concurrency is C01/C02"}})
 	reg(&propCfg{ID: "C07", Pkg: "./props/c07", Variants: simple(false),
